@@ -454,6 +454,10 @@ func timestampFromString(val string) (protoreflect.Value, error) {
 		return protoreflect.Value{}, err
 	}
 	msg := timestamppb.New(t)
+	if err := msg.CheckValid(); err != nil {
+		// RFC3339 text reaches back to year 0000, a Timestamp starts at 0001.
+		return protoreflect.Value{}, err
+	}
 	return protoreflect.ValueOfMessage(msg.ProtoReflect()), nil
 }
 
